@@ -237,7 +237,7 @@ func replayC06(raw json.RawMessage) (string, error) {
 
 // asmHistorySearch runs f on every history (all variants x all sequences up to depth), sharded by
 // (variant, first op). f returns a violation description or "".
-func asmHistorySearch(depth int, variants []asmVariant, f func(v asmVariant, al []asmOp, idx []int) (sig, what string, states int), r *report.Run, capacity int) (histories, transitions, states int64) {
+func asmHistorySearch(depth int, variants []asmVariant, f func(v asmVariant, al []asmOp, idx []int) (sig, what string, states int, rep *asmHistory), r *report.Run, capacity int) (histories, transitions, states int64) {
 	al := asmAlphabet()
 	type job struct {
 		v             asmVariant
@@ -258,12 +258,16 @@ func asmHistorySearch(depth int, variants []asmVariant, f func(v asmVariant, al 
 		j := jobs[ji]
 		var rec func(p []int, d int)
 		rec = func(p []int, d int) {
-			sig, what, st := f(j.v, al, p)
+			sig, what, st, rep := f(j.v, al, p)
 			atomic.AddInt64(&histories, 1)
 			atomic.AddInt64(&transitions, int64(len(p)))
 			atomic.AddInt64(&states, int64(st))
 			if sig != "" {
-				r.Violation(sig, what, asmHistory{Variant: j.v, Ops: historyNames(al, p), Capacity: capacity})
+				h := asmHistory{Variant: j.v, Ops: historyNames(al, p), Capacity: capacity}
+				if rep != nil {
+					h = *rep
+				}
+				r.ViolationSized(sig, what, h, len(p))
 			}
 			if d == 0 {
 				return
@@ -289,7 +293,7 @@ func runC06(r *report.Run) {
 		depth = 5
 	}
 	variants := asmVariants()
-	hist, trans, _ := asmHistorySearch(depth, variants, func(v asmVariant, al []asmOp, idx []int) (string, string, int) {
+	hist, trans, _ := asmHistorySearch(depth, variants, func(v asmVariant, al []asmOp, idx []int) (string, string, int, *asmHistory) {
 		ops := make([]asmOp, len(idx))
 		for i, k := range idx {
 			ops[i] = al[k]
@@ -299,9 +303,9 @@ func runC06(r *report.Run) {
 			d = checkFinalize(e, m)
 		}
 		if d != "" {
-			return "unexplained:finalize", fmt.Sprintf("%+v %v: %s", v, historyNames(al, idx), d), 1
+			return "unexplained:finalize", fmt.Sprintf("%+v %v: %s", v, historyNames(al, idx), d), 1, nil
 		}
-		return "", "", 1
+		return "", "", 1, nil
 	}, r, 256)
 	// distance sweep
 	var dist []c06Dist
